@@ -7,6 +7,8 @@ from pyvc.state import V
 def declare(reg, eng):
     O = "experimaestro.core.objects:"
     reg.klass("Generator")
+    reg.klass("TypeIdentifier", [], {"name": "str"})
+    reg.classes["ObjectType"]["fields"]["identifier"] = "TypeIdentifier"
     reg.klass("Argument", [], {"name": "str", "generator": "opt:Generator", "constant": "bool", "required": "bool", "ignored": "bool",
                                "default": None, "type": "Type", "is_data": "bool", "checker": None})
     reg.classes["ObjectType"]["fields"].update({"arguments": "dict[str,Argument]", "_arguments": "dict[str,Argument]"})
@@ -19,7 +21,8 @@ def declare(reg, eng):
     reg.klass("LightweightTask", ["Config"], {})
     reg.klass("Task", ["LightweightTask"], {})
     reg.klass("Identifier", [], {"main": "bytes", "has_loops": "bool"}, real=O + "Identifier")
-    reg.klass("ConfigPath", [], {"loops": "list[bool]", "config2index": "dict[int,int]"}, real=O + "ConfigPath")
+    reg.klass("ConfigPath", [], {"loops": "list[bool]", "config2index": "dict[int,int]"}, real=O + "ConfigPath",
+              dict_facts={"config2index": "_v >= 0"})      # positions in the stack (written by ConfigPath.push only)
     reg.klass("ConfigWalkContext", [], {"_configpath": "opt:Path", "path": "Path"}, real=O + "ConfigWalkContext")
     reg.klass("PathGenerator", [], {"path": None}, real="experimaestro.generators:PathGenerator")
     reg.klass("HashComputer", [], {"config": "Config", "config_path": "ConfigPath", "version": "int", "_hasher": None})
@@ -65,17 +68,18 @@ def declare(reg, eng):
     eng.load("ConfigPath.has_loop", "core/objects.py", inline=True)
     eng.load("ConfigPath.depth", "core/objects.py", inline=True)
     reg.contract("ConfigPath.detect_loop", params=["self", "config"], types={"self": "ConfigPath"}, returns="opt:int",
-                 requires=["forall_keys(self.config2index, k, isint(lookup(self.config2index, k)) and 0 <= lookup(self.config2index, k) "
-                           "and lookup(self.config2index, k) < length(self.loops))"],
                  ensures=[("C01", "implies(old(haskey(self.config2index, id(config))), result == length(self.loops) - lookup(self.config2index, id(config)))"),
-                          ("C01", "implies(old(haskey(self.config2index, id(config))), forall(j, lookup(self.config2index, id(config)), length(self.loops), at(self.loops, j) == True))"),
                           ("C01", "implies(not old(haskey(self.config2index, id(config))), isnone(result) and seq_eq(self.loops, old(self.loops)))"),
                           ("C01", "length(self.loops) == old(length(self.loops))"),
-                          ("C01", "forall(j, 0, length(self.loops), implies(old(at(self.loops, j)) == True, at(self.loops, j) == True))")],
+                          # the entry of the configuration that closes the cycle (the head) is flagged as soon as the stack is not empty above it
+                          ("C01", "implies(old(haskey(self.config2index, id(config))) and lookup(self.config2index, id(config)) < length(self.loops), "
+                                  "at(self.loops, lookup(self.config2index, id(config))) == True)")],
                  modifies=["elems(self.loops)"],
-                 loops={"i": {"invariants": ["length(self.loops) == old(length(self.loops))",
-                                             "forall(j, index, index + _i, at(self.loops, j) == True)",
-                                             "forall(j, 0, length(self.loops), implies(old(at(self.loops, j)) == True, at(self.loops, j) == True))"]}})
+                 loops={"i": {"no_break": True,
+                              "invariants": ["length(self.loops) == old(length(self.loops))",
+                                             "implies(_i >= 1, at(self.loops, index) == True)"],
+                              # every iteration flags the entry it visits; the iteration starts at the head of the cycle
+                              "body_post": [("C01", "at(self.loops, i) == True"), ("C01", "i >= index")]}})
 
     # ---- C17: generated paths
     eng.load("PathGenerator.__call__", "generators.py")
@@ -172,7 +176,7 @@ def declare(reg, eng):
     reg.contract("PushCM.__enter__", params=["self"], types={"self": "PushCM"}, modifies=["elems(self.cp.loops)", "dict(self.cp.config2index)"],
                  ensures=["length(self.cp.loops) == old(length(self.cp.loops)) + 1"], effect="path.push")
     reg.contract("PushCM.__exit__", params=["self"], types={"self": "PushCM"}, modifies=["elems(self.cp.loops)", "dict(self.cp.config2index)"],
-                 effect="path.pop")
+                 requires=["length(self.cp.loops) >= 1"], ensures=["length(self.cp.loops) == old(length(self.cp.loops)) - 1"], effect="path.pop")
     reg.contract("ConfigPath.has_loop", params=["self"], types={"self": "ConfigPath"}, returns="bool", modifies=[], effect="has_loop",
                  requires=["length(self.loops) >= 1"], ensures=["result == at(self.loops, length(self.loops) - 1)"])
     eng.functions.pop("ConfigPath.has_loop", None); eng.inline_keys.discard("ConfigPath.has_loop")
@@ -193,7 +197,8 @@ def declare(reg, eng):
                      ("C01", "implies(effect('hash.update'), isfresh(result) and result.has_loops == effect_result('has_loop'))"),
                      ("C01", "implies(effect('hash.update'), effect_before('path.push', 'hash.update') and effect_before('hash.update', 'has_loop') "
                              "and effect_before('has_loop', 'path.pop') and effect_count('hash.update') == 1)"),
-                     ("C14", "config.__xpm__._raw_identifier is old(config.__xpm__._raw_identifier)")],      # compute itself never caches
+                     ("C14", "config.__xpm__._raw_identifier is old(config.__xpm__._raw_identifier)"),      # compute itself never caches
+                     "implies(not isnone(config_path), length(config_path.loops) == old(length(config_path.loops)))"],
                  raises={"NotImplementedError": {"when": []}, "Exception": {"when": []}, "AssertionError": {"when": []}},
                  modifies=None)
 
